@@ -149,6 +149,20 @@ func runCheck(id, tier string) int {
 	if tc.TimeoutS > 0 {
 		cfg.TimeoutMs = tc.TimeoutS * 1000
 	}
+	if ob := os.Getenv("VERIF_BOUNDS"); ob != "" {
+		nb := map[string]int{}
+		for k, v := range cfg.Bounds {
+			nb[k] = v
+		}
+		for _, kv := range strings.Split(ob, ",") {
+			if i := strings.IndexByte(kv, '='); i > 0 {
+				n, _ := strconv.Atoi(kv[i+1:])
+				nb[kv[:i]] = n
+			}
+		}
+		cfg.Bounds = nb
+		tc.Bounds = nb
+	}
 	want := map[string]bool{}
 	for _, h := range tc.Harnesses {
 		want[h] = true
